@@ -27,7 +27,8 @@ RULE = (
     "made by the interpreter (start_action, start_task, ActionType(), __enter__/__exit__, context(), run, finish, "
     "add_success_fields, log_message, Action.log, Message.log/new/write, MessageType.log, write_traceback, log_call, "
     "serialize_task_id, continue_task, preserve_context) returns normally or raises exactly the object the program raised; "
-    "log_call / run return values are the same object. Failures are bucketed by (call, exception type, innermost eliot "
+    "log_call / run return values are the same object; actions may also be finished explicitly inside their own with-block "
+    "before the body goes on (and raises). Failures are bucketed by (call, exception type, innermost eliot "
     "frame). Facet handover: logging threads race (line-level schedules, generated and every single preemption) with "
     "the first add_destinations of destinations that raise: no logging call may raise. Non-trivial: a fault or hostile value that hits an end message or a failure report, or >= 2 simultaneous fault "
     "kinds. Distinct = canonical JSON of the case."
@@ -90,7 +91,7 @@ def check(case):
         d.insert(case.get("observer_pos", 0) % (len(d) + 1), observer)
         return d
 
-    opts = {"extractors": build_extractors(case["extractors"]), "serializer_hook": serializer_hook, "serialize": False, "check_context": True}
+    opts = {"extractors": build_extractors(case["extractors"]), "serializer_hook": serializer_hook, "serialize": False, "check_context": True, "allow_early_finish": True}
     sink = "memorylogger" if case.get("memorylogger") else "memory"
     run = P.run_program(case["program"], sink=sink, opts=opts, destinations=destinations)
     if run.errors:
